@@ -45,6 +45,7 @@ class Channel(BaseChannel):
     def __init__(self, channel_id, connection, rpc_timeout):
         super(Channel, self).__init__(channel_id)
         self.lock = threading.Lock()
+        self._close_lock = threading.Lock()
         self.rpc = Rpc(self, timeout=rpc_timeout)
         self._consumer_callbacks = {}
         self._confirming_deliveries = False
@@ -188,11 +189,15 @@ class Channel(BaseChannel):
         elif not compatibility.is_string(reply_text):
             raise AMQPInvalidArgument('reply_text should be a string')
         try:
-            if self._connection.is_closed or not self.is_open:
+            with self._close_lock:
+                # Only one caller may move the channel from open to closing.
+                forced = self._connection.is_closed or not self.is_open
+                if not forced:
+                    self.set_state(self.CLOSING)
+            if forced:
                 self.stop_consuming()
                 LOGGER.debug('Channel #%d forcefully Closed', self.channel_id)
                 return
-            self.set_state(self.CLOSING)
             LOGGER.debug('Channel #%d Closing', self.channel_id)
             try:
                 self.stop_consuming()
